@@ -102,6 +102,13 @@ Start(a, r) ==
   /\ act[a] = Idle
   /\ r.k \in ReadKinds => nr = 1
   /\ r.k \in WriteKinds => nw = 1
+  \* Concurrent switches the descriptor to non-blocking mode for the duration
+  \* of a request and restores the mode afterwards, which presupposes ONE
+  \* request at a time per descriptor -- what a shell process does (it runs a
+  \* single task); two requests on one descriptor are outside C14
+  /\ Level = "C" => \A b \in Actors \ {a} :
+                       /\ ~(act[b].k \in ReadKinds /\ r.k \in ReadKinds)
+                       /\ ~(act[b].k \in WriteKinds /\ r.k \in WriteKinds)
   /\ Apply(a, r, StepRec("start", a, r))
 
 PollStep(a) ==
